@@ -4,7 +4,10 @@ pyro_app(environ, start_response) is called as a function against a real name se
 logging objects. A traffic counter (wrappers on SocketConnection.send / create_socket installed from the harness) counts
 every Pyro message / connection made by the thread executing pyro_app. Authorisation is computed from the statement."""
 import io
+import os
+import shutil
 import socket
+import tempfile
 import struct
 import json
 import re
@@ -23,7 +26,7 @@ RULE = ("requests = method {GET,POST,OPTIONS,PUT,DELETE,HEAD} x path (0-4 segmen
 ASSUMPTIONS = ["the cached name-server proxy of the gateway module is seeded with a proxy to the harness' own name server (no DNS/broadcast lookup)",
                "header-wrong + parameter-right may be refused (the safe direction is not flagged)", "a repeated $key parameter is judged only on 'no Pyro traffic'",
                "blank query values are not generated (parse_qs drops them by documented default)"]
-REQUIRED_REACH = ["unauthorised_refused", "forwarded_ok", "meta_ok", "errors_500_ok", "oneway_ok", "non_call_requests", "pattern_mismatch_refused", "key_missing_refused", "lost_reply_once_ok", "lifecycle_histories_ok"]
+REQUIRED_REACH = ["index_pages_ok", "sql_backed_name_server_shards", "unauthorised_refused", "forwarded_ok", "meta_ok", "errors_500_ok", "oneway_ok", "non_call_requests", "pattern_mismatch_refused", "key_missing_refused", "lost_reply_once_ok", "lifecycle_histories_ok"]
 SHARD_TIMEOUT = {"quick": 240, "thorough": 3000}
 KEY = "s3cret"
 OBJ_NAMES = ["http.calc", "http.calc2", "http.other", "Http.calc", "xhttp.calc", "other.obj", "http.", "http.a/b", "xother.obj", "a.other.x", "http.a%41", "http.aA", "http.b+c"]
@@ -82,14 +85,14 @@ def make_target(P, tlog, name):
 
 
 class Env:
-    def __init__(self, P):
+    def __init__(self, P, storage=None):
         import Pyro5.nameserver as N
         import Pyro5.utils.httpgateway as G
         self.P, self.N, self.G = P, N, G
         P.config.SERVERTYPE = "thread"
         P.config.POLLTIMEOUT = 0.5
         P.config.COMMTIMEOUT = 0.0
-        self.nsd = N.NameServerDaemon(host="127.0.0.1", port=0)
+        self.nsd = N.NameServerDaemon(host="127.0.0.1", port=0, storage=storage)      # (memory, or "sql:<file>": the gateway does not know)
         self.tlog = TargetLog()
         self.daemon = P.server.Daemon(host="127.0.0.1", port=0)
         for n in OBJ_NAMES:
@@ -359,7 +362,7 @@ def plan(tier, seed):
     i = 0
     for pat in PATTERNS:
         for key in (None, b"", KEY.encode()):
-            shards.append({"i": i, "pattern": pat, "key": key, "n": n})
+            shards.append({"i": i, "pattern": pat, "key": key, "n": n, "storage": "sql" if i % 2 else "memory"})
             i += 1
     return shards
 
@@ -411,15 +414,56 @@ def lifecycle(envx, cfg, rec, r, n):
                 pass
 
 
+def index_page(envx, cfg, rec):
+    """the keyless index page lists (and asks for the metadata of) objects that match the expose pattern, and only those; nothing is invoked"""
+    env = {"REQUEST_METHOD": "GET", "PATH_INFO": "/pyro/", "QUERY_STRING": "", "wsgi.errors": io.StringIO(), "wsgi.input": io.BytesIO(b""), "CONTENT_LENGTH": "0"}
+    status, body, crashed, traffic = envx.call(env)
+    pay = {"cfg": cfg, "environ": {k: v for k, v in env.items() if not k.startswith("wsgi.")}, "info": {"params": [], "keymode": "none"}, "index": True}
+    rec.case(("index", repr(sorted(cfg.items(), key=str)), envx.storage_kind), nontrivial=True)
+    with envx.tlog.lock:
+        calls = list(envx.tlog.calls)
+    if crashed is not None or not status or not status.startswith("200"):
+        rec.violation("index-page-fails", "GET /pyro/ answered %r (raised %r)" % (status, crashed), pay)
+        return
+    if calls:
+        rec.violation("non-call-request-invoked-something", "the index page invoked %r" % (calls,), pay)
+        return
+    # (the rows of the generated table only: the page's static text has example links of its own)
+    listed = set(re.findall(r"<tr><td><a [^>]*pyro_call\('([^']*)','\$meta'\)", body.decode("utf-8", "replace")))
+    foreign = sorted(n for n in listed if cfg["pattern"] and re.match(cfg["pattern"], n) is None)
+    if foreign:
+        rec.violation("index-page-lists-unexposed-object", "expose pattern %r (name server storage: %s): the keyless index page lists (and contacted, for their metadata) %r, which the pattern does not match" % (
+            cfg["pattern"], envx.storage_kind, foreign), pay)
+        return
+    matching = [n for n in OBJ_NAMES if not cfg["pattern"] or re.match(cfg["pattern"], n)]
+    if matching and not listed:
+        rec.violation("index-page-lists-nothing", "expose pattern %r matches %r but the index page lists nothing" % (cfg["pattern"], matching[:5]), pay)
+        return
+    rec.count("index_pages_ok")
+
+
+def make_env(P, storage_kind):
+    workdir = storage = None
+    if storage_kind == "sql":
+        os.makedirs(os.path.join(core.VERIF, ".work"), exist_ok=True)
+        workdir = tempfile.mkdtemp(prefix="c20-", dir=os.path.join(core.VERIF, ".work"))
+        storage = "sql:" + os.path.join(workdir, "ns.sqlite")
+    envx = Env(P, storage)
+    envx.storage_kind = storage_kind
+    return envx, workdir
+
+
 def run_shard(shard, rec):
     P = fixture.pyro()
     r = gen.rng(rec.seed, "c20", shard["i"])
-    envx = Env(P)
+    envx, workdir = make_env(P, shard.get("storage", "memory"))
+    if workdir:
+        rec.count("sql_backed_name_server_shards")
     try:
         G = envx.G
         G.pyro_app.ns_regex = shard["pattern"]
         G.pyro_app.gateway_key = shard["key"]
-        cfg = {"pattern": shard["pattern"], "key": shard["key"]}
+        cfg = {"pattern": shard["pattern"], "key": shard["key"], "storage": envx.storage_kind}
         if not shard["key"]:
             rec.count("key_missing_refused")
         if not shard["pattern"]:
@@ -436,18 +480,25 @@ def run_shard(shard, rec):
             judge(envx, cfg, env, info, status, body, crashed, traffic, rec, pay)
             if j % 40 == 7:
                 lifecycle(envx, cfg, rec, r, j)
+            if j % 50 == 3:
+                index_page(envx, cfg, rec)
         if not cfg["pattern"] or not re.match(cfg["pattern"], "http.tmp1.calc"):
             rec.count("lifecycle_histories_ok")      # (this shard's expose pattern hides the temporary names: nothing to do here)
     finally:
         envx.close()
+        if workdir:
+            shutil.rmtree(workdir, ignore_errors=True)
 
 
 def replay(payload, rec):
     P = fixture.pyro()
-    envx = Env(P)
+    envx, workdir = make_env(P, payload["cfg"].get("storage", "memory"))
     try:
         envx.G.pyro_app.ns_regex = payload["cfg"]["pattern"]
         envx.G.pyro_app.gateway_key = payload["cfg"]["key"]
+        if payload.get("index"):
+            index_page(envx, payload["cfg"], rec)
+            return
         if "lifecycle" in payload:
             lifecycle(envx, payload["cfg"], rec, gen.rng(rec.seed, "c20-replay"), payload["lifecycle"])
             return
@@ -459,3 +510,5 @@ def replay(payload, rec):
         judge(envx, payload["cfg"], env, payload["info"], status, body, crashed, traffic, rec, payload)
     finally:
         envx.close()
+        if workdir:
+            shutil.rmtree(workdir, ignore_errors=True)
